@@ -128,6 +128,14 @@ def verify_body(interp, ck_struct):
         if not okparts:
             continue
         fs, fm = Z(bargs[0]), Z(bargs[1])
+        # samples_left / max_samples_this_file are differences of exact file-start indices: a floating-point value cannot carry that
+        # for every rate and index of the domain (the same policy as the metadata placement, C13)
+        flt = [nm for nm, o_ in (("samples_left", o_left), ("max_samples_this_file", o_max)) if isinstance(s.mem[o_], Opaque)]
+        ck_struct("%s.integer_arithmetic" % name, not flt, "%s computed in floating point (%s): not exact on file boundaries for all rates" % (
+            ", ".join(flt), [s.mem[o_].tag for o_ in (o_left, o_max) if isinstance(s.mem[o_], Opaque)]))
+        if flt:
+            n_ok += 1
+            continue
         r = NS(ret=rv, T=T, t=1000 * fs + fm, left=s.mem[o_left], max=s.mem[o_max])
         interp.oblige(s, "%s.msec_digits" % name, z3.And(fm >= 0, fm < 1000, fs >= 0), fn["_line"], kind="post", meta={"syms": a.__dict__})
         for label, g in ensures(a, r):
